@@ -17,7 +17,7 @@ Quantifiers: every state `s` (block requested or not, tx manager or not, ready o
 environment satisfying `EnvOk` (4 magic bytes, hash ≥ 4 bytes), every payload `p` below 4 GiB
 (classic) and every following byte string `rest`.
 -/
-import BRV.Proofs.NodeLists
+import BRV.Proofs.NodeBlock
 import BRV.Props.C13
 
 namespace BRV.Wire
@@ -237,10 +237,11 @@ theorem hTx_used_le (e : Env) (s : State) (L : Nat) (c : Bool) (ck inp : Bytes) 
     · exact Nat.zero_le _
     · exact Nat.le_refl _
 
-/-- what `handleExtended` makes of `command(12) ++ length(8) ++ p ++ rest`, `|p|` declared. If a
-    block handler is installed the block must not be the requested one (`hblk`). -/
-theorem hExtended_sound (e : Env) (s : State) (c p rest : Bytes) (hc : c.length ≤ 12) (hp : p.length < 2 ^ 64)
-    (hblk : s.table.get "block" = some .block → 80 ≤ p.length ∧ s.blockReq ≠ some (e.hash (p.take 80))) :
+/-- what `handleExtended` makes of `command(12) ++ length(8) ++ p ++ rest`, `|p|` declared, given
+    what `handleBlock` does with `p ++ rest` when a block handler is installed (`hblk`). -/
+theorem hExtended_sound_gen (e : Env) (s : State) (c p rest : Bytes) (hc : c.length ≤ 12) (hp : p.length < 2 ^ 64)
+    (hblk : s.table.get "block" = some .block →
+      Sound p.length (hBlock e s p.length (p ++ rest)) ∧ (hBlock e s p.length (p ++ rest)).used ≤ p.length) :
     Sound (20 + p.length) (hExtended e s (cmdField c ++ leN 8 p.length ++ (p ++ rest))) := by
   unfold hExtended
   rw [List.append_assoc, readN_append 12 _ _ (cmdField_length c hc)]
@@ -272,9 +273,7 @@ theorem hExtended_sound (e : Env) (s : State) (c p rest : Bytes) (hc : c.length 
   · split
     · split
       · rename_i hb
-        have hb' := hblk hb
-        have h80' : (p ++ rest).take 80 = p.take 80 := List.take_append_of_le_length hb'.1
-        have := hBlock_unrequested e s p.length (p ++ rest) hb'.1 hL ha (by rw [h80']; exact hb'.2)
+        have := hblk hb
         exact key _ this.1 this.2
       · exact h0 s
     · split
@@ -282,6 +281,16 @@ theorem hExtended_sound (e : Env) (s : State) (c p rest : Bytes) (hc : c.length 
         · exact key _ (hTx_sound e s p.length false [] (p ++ rest) ha) (hTx_used_le e s p.length false [] (p ++ rest) ha)
         · exact h0 s
       · exact h0 s
+
+/-- the same when an installed block handler is for another block than this one. -/
+theorem hExtended_sound (e : Env) (s : State) (c p rest : Bytes) (hc : c.length ≤ 12) (hp : p.length < 2 ^ 64)
+    (hblk : s.table.get "block" = some .block → 80 ≤ p.length ∧ s.blockReq ≠ some (e.hash (p.take 80))) :
+    Sound (20 + p.length) (hExtended e s (cmdField c ++ leN 8 p.length ++ (p ++ rest))) := by
+  apply hExtended_sound_gen e s c p rest hc hp
+  intro hb
+  have hb' := hblk hb
+  have h80' : (p ++ rest).take 80 = p.take 80 := List.take_append_of_le_length hb'.1
+  exact hBlock_unrequested e s p.length (p ++ rest) hb'.1 (by unfold two64; omega) (by simp) (by rw [h80']; exact hb'.2)
 
 /-- **C14 (extended framing).** An `extmsg` frame carrying any command (tx, block, unknown) and any
     payload `p` (up to 2^64−1 bytes declared = present), in any state — ready or not, tx manager or
@@ -305,6 +314,152 @@ theorem C14_extended_exact (e : Env) (he : EnvOk e) (s : State) (c p rest : Byte
   have hlen : (cmdField c ++ leN 8 p.length ++ p).length = 20 + p.length := by
     simp only [List.length_append, cmdField_length c hc, leN_length]
   exact toOutcome_exact (20 + p.length) (cmdField c ++ leN 8 p.length ++ p) rest _ hlen (by rw [hb]; exact hs)
+
+/-- extended framing with whatever `handleBlock` does for this payload (used for the requested block). -/
+theorem C14_extended_exact_gen (e : Env) (he : EnvOk e) (s : State) (c p rest : Bytes)
+    (hc : c.length ≤ 12) (hp : p.length < 2 ^ 64)
+    (hl : lookupCmd s.table (ascii "extmsg") = some .extended)
+    (hblk : s.table.get "block" = some .block →
+      Sound p.length (hBlock e s p.length (p ++ rest)) ∧ (hBlock e s p.length (p ++ rest)).used ≤ p.length) :
+    ExactOrEnd rest (handleMessage e s (extFrame e c p ++ rest)) := by
+  have hinp : extFrame e c p ++ rest =
+      e.net ++ cmdField (ascii "extmsg") ++ leN 4 0xffffffff ++ [0, 0, 0, 0] ++
+        ((cmdField c ++ leN 8 p.length ++ p) ++ rest) := by
+    unfold extFrame; simp only [List.append_assoc]
+  have hw : wfCmd (ascii "extmsg") := ⟨by decide, by decide, by decide⟩
+  rw [hinp, handleMessage_frame e he s (ascii "extmsg") [0, 0, 0, 0] _ 0xffffffff hw (by decide) rfl, hl]
+  have hs := hExtended_sound_gen e s c p rest hc hp hblk
+  simp only [dispatch]
+  have hb : (cmdField c ++ leN 8 p.length ++ p) ++ rest = cmdField c ++ leN 8 p.length ++ (p ++ rest) := by
+    simp only [List.append_assoc]
+  have hlen : (cmdField c ++ leN 8 p.length ++ p).length = 20 + p.length := by
+    simp only [List.length_append, cmdField_length c hc, leN_length]
+  exact toOutcome_exact (20 + p.length) (cmdField c ++ leN 8 p.length ++ p) rest _ hlen (by rw [hb]; exact hs)
+
+/-! ### the requested block -/
+
+/-- the result of `handleBlock`'s body for a fully delivered requested block of `k` transactions. -/
+def blockDone (s : State) (hash : Bytes) (k used : Nat) : HOut :=
+  { st := completeBlock { s with blockReader := true, blockStarted := false,
+                                 bh := { called := true, count := k, got := 0 + k, done := some true } } hash,
+    fx := [.updateScore], used := used }
+
+/-- `handleBlock` on the REQUESTED block, handler installed, the block well-formed (header, count,
+    that many well-formed transactions, possibly extra bytes inside the declared length), followed
+    by anything: every transaction is handed to the handler, which returns nil; the request is
+    completed (node idle); exactly the declared length is consumed. -/
+theorem hBlock_requested (e : Env) (s : State) (M : Nat) (hs : SizeOk e.mem M) (p rest : Bytes)
+    (hw : wfBlock M p) (hL : p.length < two64)
+    (hreq : s.blockReq = some (e.hash (p.take 80))) (hh : s.blockHandler = true) :
+    Sound p.length (hBlock e s p.length (p ++ rest)) ∧ (hBlock e s p.length (p ++ rest)).used ≤ p.length ∧
+    (hBlock e s p.length (p ++ rest)).res = .ok ∧ (hBlock e s p.length (p ++ rest)).fx = [.updateScore] ∧
+    (hBlock e s p.length (p ++ rest)).st.busy = false ∧
+    (hBlock e s p.length (p ++ rest)).st.bh.done = some true := by
+  obtain ⟨h, k, txs, extra, hh80, hk, htx, rfl⟩ := hw
+  have htake : (h ++ varIntEnc k ++ txs.flatten ++ extra).take 80 = h := by
+    rw [List.append_assoc, List.append_assoc]; exact List.take_left' hh80
+  rw [htake] at hreq
+  have hinp : h ++ varIntEnc k ++ txs.flatten ++ extra ++ rest =
+      h ++ (varIntEnc k ++ (txs.flatten ++ (extra ++ rest))) := by simp only [List.append_assoc]
+  -- the body before the deferred discard
+  have ho : hBlock e s (h ++ varIntEnc k ++ txs.flatten ++ extra).length
+        (h ++ varIntEnc k ++ txs.flatten ++ extra ++ rest) =
+      finish (h ++ varIntEnc k ++ txs.flatten ++ extra).length
+        (h ++ varIntEnc k ++ txs.flatten ++ extra ++ rest).length
+        (blockDone s (e.hash h) k
+          ((h ++ varIntEnc k ++ txs.flatten ++ extra ++ rest).length - (extra ++ rest).length)) := by
+    unfold hBlock blockDone
+    rw [hinp, readN_append' 80 h _ hh80]
+    simp only [hreq, ne_eq, not_true_eq_false, ↓reduceIte, hh, Bool.not_true, Bool.false_eq_true]
+    rw [readVarInt_enc k _ hk]
+    simp only []
+    rw [blockLoop_ok e.mem M hs k txs htx (extra ++ rest) _ 0 (by
+      have := wfTxs_le M k txs htx
+      simp only [List.length_append]; omega)]
+  rw [ho]
+  generalize hused : (h ++ varIntEnc k ++ txs.flatten ++ extra ++ rest).length - (extra ++ rest).length = u
+  have hu : (blockDone s (e.hash h) k u).used ≤ (h ++ varIntEnc k ++ txs.flatten ++ extra).length := by
+    show u ≤ _
+    rw [← hused]; simp only [List.length_append]; omega
+  have ha : (h ++ varIntEnc k ++ txs.flatten ++ extra).length ≤
+      (h ++ varIntEnc k ++ txs.flatten ++ extra ++ rest).length := by simp
+  have hres : (blockDone s (e.hash h) k u).res = .ok := rfl
+  have hfin := finish_exact _ _ (blockDone s (e.hash h) k u) hu hL ha (Or.inl hres)
+  refine ⟨finish_sound _ _ _ hL ha hu (by rw [hres]; simp) (by rw [hres]; simp),
+    Nat.le_of_eq hfin.1, by rw [hfin.2]; exact hres, by rw [finish_fx]; rfl, ?_, ?_⟩
+  · rw [finish_st]; unfold blockDone; simp [completeBlock, hreq, State.busy]
+  · rw [finish_st]; unfold blockDone; simp [completeBlock, hreq]
+
+/-- **C14 (the requested block, classic framing).** For every node state with an outstanding
+    request for this block and its handler installed, every well-formed block message (header,
+    count, that many well-formed transactions — also with a count smaller than what the declared
+    length holds), followed by any bytes: it is consumed to exactly its declared length. -/
+theorem C14_block_requested_exact (e : Env) (he : EnvOk e) (s : State) (M : Nat) (hs : SizeOk e.mem M)
+    (cmd p rest : Bytes) (hc : wfCmd cmd) (hp : p.length < 2 ^ 32) (hw : wfBlock M p)
+    (hl : lookupCmd s.table cmd = some .block)
+    (hreq : s.blockReq = some (e.hash (p.take 80))) (hh : s.blockHandler = true) :
+    ExactOrEnd rest (handleMessage e s (classicFrame e cmd p ++ rest)) := by
+  rw [handleMessage_classic e he s cmd p rest hc hp, hl]
+  apply toOutcome_exact p.length p rest _ rfl
+  exact (hBlock_requested e s M hs p rest hw (by unfold two64; omega) hreq hh).1
+
+/-- **C14 (the requested block, extended framing).** -/
+theorem C14_block_requested_exact_ext (e : Env) (he : EnvOk e) (s : State) (M : Nat) (hs : SizeOk e.mem M)
+    (p rest : Bytes) (hp : p.length < 2 ^ 64) (hw : wfBlock M p)
+    (hl : lookupCmd s.table (ascii "extmsg") = some .extended)
+    (hreq : s.blockReq = some (e.hash (p.take 80))) (hh : s.blockHandler = true) :
+    ExactOrEnd rest (handleMessage e s (extFrame e (ascii "block") p ++ rest)) := by
+  apply C14_extended_exact_gen e he s (ascii "block") p rest (by decide) hp hl
+  intro _
+  have := hBlock_requested e s M hs p rest hw (by unfold two64; omega) hreq hh
+  exact ⟨this.1, this.2.1⟩
+
+/-- `handleBlock` on the block of a cancelled request (handler dropped before the block message):
+    the request is completed (the node is idle again), nothing is handed to anybody, and the
+    message — any content after the header — is consumed to exactly its declared length. -/
+theorem hBlock_cancelled (e : Env) (s : State) (L : Nat) (inp : Bytes) (h80 : 80 ≤ L) (hL : L < two64)
+    (ha : L ≤ inp.length) (hreq : s.blockReq = some (e.hash (inp.take 80))) (hh : s.blockHandler = false) :
+    Sound L (hBlock e s L inp) ∧ (hBlock e s L inp).st = completeBlock s (e.hash (inp.take 80)) ∧
+    (hBlock e s L inp).fx = [] := by
+  have hn : ¬ inp.length < 80 := by omega
+  unfold hBlock
+  simp only [readN, hn, ↓reduceIte, hreq, ne_eq, not_true_eq_false, hh, Bool.not_false]
+  exact ⟨finish_sound L _ _ hL ha h80 (by simp) (by simp), rfl, rfl⟩
+
+/-- **C14 (block of a request cancelled before its message).** -/
+theorem C14_block_cancelled_exact (e : Env) (he : EnvOk e) (s : State) (cmd p rest : Bytes)
+    (hc : wfCmd cmd) (hp : p.length < 2 ^ 32) (h80 : 80 ≤ p.length)
+    (hl : lookupCmd s.table cmd = some .block) (hreq : s.blockReq = some (e.hash (p.take 80)))
+    (hh : s.blockHandler = false) :
+    ExactOrEnd rest (handleMessage e s (classicFrame e cmd p ++ rest)) := by
+  rw [handleMessage_classic e he s cmd p rest hc hp, hl]
+  apply toOutcome_exact p.length p rest _ rfl
+  have h80' : (p ++ rest).take 80 = p.take 80 := List.take_append_of_le_length h80
+  exact (hBlock_cancelled e s p.length (p ++ rest) h80 (by unfold two64; omega) (by simp)
+    (by rw [h80']; exact hreq) hh).1
+
+/-- **C14 (a transaction of the requested block fails to parse).** Whenever the transaction loop
+    ends in a decode error (or a recovered makeslice panic) and what was read so far lies inside
+    the declared length, the rest of the message is discarded, the handler gets the end of its
+    stream (it returns an error), the request is completed and the connection ENDS (`err`): no
+    desynchronised continuation. -/
+theorem hBlock_requested_tx_error (e : Env) (s : State) (L : Nat) (inp h r1 r2 : Bytes) (k got : Nat)
+    (h80 : readN 80 inp = .ok h r1) (hreq : s.blockReq = some (e.hash h)) (hh : s.blockHandler = true)
+    (hv : readVarInt r1 = .ok k r2)
+    (hloop : blockLoop e.mem (r2.length + 1) k r2 0 = (.err, got) ∨ blockLoop e.mem (r2.length + 1) k r2 0 = (.panicked, got))
+    (hL : L < two64) (ha : L ≤ inp.length) (hu : inp.length - r2.length ≤ L) :
+    (hBlock e s L inp).res = .err ∧ (hBlock e s L inp).used = L ∧
+    (hBlock e s L inp).st.busy = false ∧ (hBlock e s L inp).st.bh.done = some false := by
+  unfold hBlock
+  rw [h80]
+  simp only [hreq, ne_eq, not_true_eq_false, ↓reduceIte, hh, Bool.not_true, Bool.false_eq_true, hv]
+  rcases hloop with hl | hl <;> rw [hl] <;> simp only []
+  all_goals
+    refine ⟨?_, ?_, ?_, ?_⟩
+    · exact (finish_exact L _ _ hu hL ha (Or.inr rfl)).2
+    · exact (finish_exact L _ _ hu hL ha (Or.inr rfl)).1
+    · rw [finish_st]; simp [completeBlock, State.busy]
+    · rw [finish_st]; simp [completeBlock]
 
 /-! ### never blocked, and a ping is always answered -/
 
@@ -363,6 +518,14 @@ theorem C14_ping_after_any_sequence (e : Env) (he : EnvOk e) (s : State) (h : Re
     handleMessage e s (pingFrame e n ++ rest) = .ok s rest [.send "pong" n] :=
   C14_ping_pong e he s n hn rest (reach_inv e s h).ping
 
+/-- after any handled message the connection is again in a state where a ping is answered: with
+    the theorems above, the requested block (whole, classic or extended, or cancelled) is followed
+    by an answered ping. -/
+theorem C14_ping_after_ok_step (e : Env) (he : EnvOk e) (s s' : State) (hr : Reach e s) (inp rest : Bytes)
+    (fx : List Effect) (hstep : handleMessage e s inp = .ok s' rest fx) (n : Nat) (hn : n < 2 ^ 64) (rest' : Bytes) :
+    handleMessage e s' (pingFrame e n ++ rest') = .ok s' rest' [.send "pong" n] :=
+  C14_ping_after_any_sequence e he s' (Reach.step inp hr (by rw [hstep]; rfl)) n hn rest'
+
 /-! ### non-vacuity -/
 
 namespace Example
@@ -386,6 +549,23 @@ example : wfCmd (ascii "headers") := ⟨by decide, by decide, by decide⟩
 example : wfInv ([2] ++ List.replicate 72 1) :=
   ⟨2, [List.replicate 36 1, List.replicate 36 1], by decide, ⟨_, _, rfl, by simp, _, _, rfl, by simp, rfl⟩, by decide⟩
 example : wfInv [0] := ⟨0, [], by decide, rfl, rfl⟩
+
+/-- a well-formed transaction (one input with a 1-byte script, one output with an empty script)
+    and a well-formed block of two of them with 3 extra bytes inside the declared length. -/
+def exIn : Bytes := List.replicate 36 0 ++ varIntEnc 1 ++ [0x51] ++ [255, 255, 255, 255]
+def exOut : Bytes := List.replicate 8 0 ++ varIntEnc 0 ++ [] ++ []
+def exTx : Bytes := [1, 0, 0, 0] ++ varIntEnc 1 ++ [exIn].flatten ++ varIntEnc 1 ++ [exOut].flatten ++ [0, 0, 0, 0]
+
+theorem exTx_wf : wfTx 1000 exTx :=
+  ⟨[1, 0, 0, 0], [0, 0, 0, 0], [exIn], [exOut], 1, 1, rfl, rfl, by decide, by decide,
+   ⟨exIn, [], rfl, ⟨List.replicate 36 0, [0x51], [255, 255, 255, 255], by simp, rfl, by decide, rfl⟩, rfl⟩,
+   ⟨exOut, [], rfl, ⟨List.replicate 8 0, [], [], by simp, rfl, by decide, rfl⟩, rfl⟩, rfl⟩
+
+example : wfBlock 1000 (List.replicate 80 9 ++ varIntEnc 2 ++ [exTx, exTx].flatten ++ [7, 7, 7]) :=
+  ⟨List.replicate 80 9, 2, [exTx, exTx], [7, 7, 7], by simp, by decide,
+   ⟨exTx, [exTx], rfl, exTx_wf, ⟨exTx, [], rfl, exTx_wf, rfl⟩⟩, rfl⟩
+
+example : SizeOk env0.mem 1000 := ⟨by decide, by decide⟩
 example : wfHeaders ([1] ++ List.replicate 80 5 ++ [0]) :=
   ⟨1, [List.replicate 80 5], by decide, ⟨_, _, rfl, by simp, rfl⟩, by decide⟩
 
